@@ -22,7 +22,7 @@ RULE = ('(1) contract evaluation: every labelled DAG on <=3 (quick) / <=4 '
 ASSUMPTIONS = ['layers have distinct qualified names (bare names may repeat across modules)',
                'class-layer DAGs are restricted to those with a consistent '
                'C3 MRO (others cannot be written in Python)']
-FLOORS = {'order_calls': 20000, 'perm_groups': 3000, 'nontrivial_groups': 1000,
+FLOORS = {'resume_runs': 15, 'order_calls': 20000, 'perm_groups': 3000, 'nontrivial_groups': 1000,
           'cli_runs': 100, 'variant_pairs': 80, 'monitor_evals': 20000}
 BATCH_TIMEOUT = 600
 
@@ -342,14 +342,22 @@ def run_runs(case):
         try:
             hs = rng.choice([0, 1, 2, 3, 4, 5, 6, 7,
                              rng.randrange(1, 4000000)])
-            mode = rng.choice(['cli', 'cli', 'list', 'par'])
+            mode = rng.choice(['cli', 'cli', 'list', 'par', 'resume'])
             opts = {}
             extra = []
+            plan = None
+            if mode == 'resume':
+                # no layer can be torn down: after the first one the rest
+                # runs in subprocesses, one at a time - their start order
+                # is the run order
+                plan = {'layers': {ls['name']: {'tearDown': 'nie'}
+                                   for ls in layers}}
+                counters['resume_runs'] = counters.get('resume_runs', 0) + 1
             if mode == 'list':
                 extra = ['--list-tests']
             if mode == 'par':
                 opts['processes'] = rng.randint(2, 4)
-            w = common.run_world(spec, None, opts, extra_argv=extra,
+            w = common.run_world(spec, plan, opts, extra_argv=extra,
                                  mode='cli', root=root,
                                  env_extra={'PYTHONHASHSEED': hs})
             counters['cli_runs'] += 1
